@@ -179,11 +179,11 @@ func rekeys(hs, n int) int { return (hs + n) / bip324.RekeyInterval }
 var recInterop = ev.New("C19", "interop",
 	"reference BIP324 endpoint (own ElligatorSwift/ECDH/HKDF/FSChaCha20/AEAD) against a btcd v2transport.Peer in either role; "+
 		"garbage lengths on each side from {0,1,15,16,17,4094,4095} U uniform U near-max; decoys before the version packet on both sides (reference: arbitrary contents, non-empty version contents); "+
-		"0-700 packets per direction aimed at the rekey boundaries (message 224k), sizes from boundary values up to 65537 (2^24-1 in thorough), ignore flags, occasional AAD; short reads on btcd's side. "+
+		"0-700 packets per direction aimed at the rekey boundaries (message 224k), sizes from boundary values up to 65537 (2^24-1 in thorough; a fixed script sends 2^24-1 both ways and checks that 2^24 and 2^24+1 are refused by the sender), ignore flags, occasional AAD; short reads on btcd's side. "+
 		"Oracle: both handshakes complete, btcd's whole output stream equals the reference sender's bytes, session id equal, every packet is received by the other side with the same contents/flag in order. "+
 		"Non-trivial = a garbage length at a boundary, or a direction crossing a rekey; distinct by all drawn parameters",
 	"btcd-initiator", "btcd-responder", "garbage-boundary(model)", "garbage-boundary(btcd)", "garbage-4095(btcd-sends)",
-	"rekey-crossed(model->btcd)", "rekey-crossed(btcd->model)", "rekeys>=3", "decoys(model)", "decoys(btcd)", "packet>=65536")
+	"rekey-crossed(model->btcd)", "rekey-crossed(btcd->model)", "rekeys>=3", "decoys(model)", "decoys(btcd)", "packet>=65536", "content-length-limit")
 
 type interopCase struct {
 	btcdInit   bool
@@ -407,6 +407,18 @@ func runInterop(t fataler, c *interopCase) {
 	for i, p := range c.toModel {
 		contents := expand(c.seed, i, p.size)
 		aad := expand(c.seed, 1<<20+i, p.aadLen)
+		if p.size > bip324.MaxContentsLen {
+			// the 3-byte length field cannot carry it: the sender must refuse, write nothing
+			// and stay in step (the following packets are compared as usual)
+			ct, n, err := bt.V2EncPacket(contents, aad, p.ignore)
+			if err == nil {
+				t.Fatalf("V2EncPacket accepted a packet of %d content bytes (the maximum is 2^24-1 = %d): returned %d bytes (reports %d), header %x", p.size, bip324.MaxContentsLen, len(ct), n, head(ct))
+			}
+			if w.pending(1) != 0 {
+				t.Fatalf("V2EncPacket refused a packet of %d content bytes (%v) but wrote %d bytes", p.size, err, w.pending(1))
+			}
+			continue
+		}
 		ct, n, err := bt.V2EncPacket(contents, aad, p.ignore)
 		if err != nil {
 			t.Fatalf("V2EncPacket #%d (size %d): %v", i, p.size, err)
@@ -496,6 +508,22 @@ func head(b []byte) []byte {
 // peer sends the legal maximum of 4095 garbage bytes) in both roles, without
 // any generator: it passes once the defect is repaired, prints KNOWN-FINDING
 // while it is listed, and fails otherwise.
+// TestContentLengthLimit: the largest packet (2^24-1 content bytes) travels
+// intact in both directions, one byte more is refused by the sender without
+// disturbing the session (fixed scripts, both roles).
+func TestContentLengthLimit(t *testing.T) {
+	calibrate(t)
+	for _, btcdInit := range []bool{true, false} {
+		c := &interopCase{btcdInit: btcdInit, net: 0xd9b4bef9, gB: 3, gM: 5, key: poolKey(1), seed: 0x1234 + uint64(len(recInterop.Rule)),
+			toModel: []pkt{{size: 5}, {size: bip324.MaxContentsLen + 1}, {size: 9, aadLen: 0}, {size: bip324.MaxContentsLen}, {size: bip324.MaxContentsLen + 2, ignore: true}, {size: 1}},
+			toBtcd:  []pkt{{size: 3}, {size: bip324.MaxContentsLen}, {size: 2}}}
+		recInterop.Case(true, "content-length-limit", ev.HashS(fmt.Sprint("limit", btcdInit)), func() any {
+			return fmt.Sprintf("btcd initiates=%v: btcd sends sizes 5, 2^24, 9, 2^24-1, 2^24+1(decoy), 1; receives 3, 2^24-1, 2", btcdInit)
+		})
+		runInterop(t, c)
+	}
+}
+
 func TestRegressGarbage4095(t *testing.T) {
 	calibrate(t)
 	for _, init := range []bool{true, false} {
